@@ -405,6 +405,11 @@ def effect(g, op, attrs=None):
             cands.append(g.copy())
         return fin(cands, [t], ('t', p), note='reparent')
 
+    if kind == 'adopt_children':
+        # own.children = <the live children / roots list of src>: "consist of exactly the given tasks in the given order"
+        own, src = op[1], op[2]
+        return effect(g, ('set_children', own, list(g.clist(_ref(src)))), attrs)
+
     if kind in ('set_children', 'floordiv'):
         own, raw = op[1], op[2]
         ref = _ref(own)
